@@ -515,7 +515,8 @@ Definition enc_evs (l : list ev) : list N := nlen l :: flat_map enc_ev l.
 Record case := {
   k_acts : list act;
   k_expect : list (list N);
-  k_races : list (N * N) }.   (* stepped concurrent inputs: (number of senders, number of accepted inputs) per round *)
+  k_races : list (N * N);     (* stepped concurrent inputs: (number of senders, number of accepted inputs) per round *)
+  k_faults : list N }.        (* fault injection: the kinds of continuity frames (head of ck_code) whose append fails *)
 
 Fixpoint all2 {A B} (f : A -> B -> bool) (a : list A) (b : list B) : bool :=
   match a, b with
@@ -524,9 +525,13 @@ Fixpoint all2 {A B} (f : A -> B -> bool) (a : list A) (b : list B) : bool :=
   | _, _ => false
   end.
 
+(* AppendOk fails for exactly the frame kinds the harness made fail (rip_kernel::verif::fail) *)
+Definition aok_of (faults : list N) (k : ck) : bool :=
+  negb (existsb (N.eqb (hd 0 (ck_code k))) faults).
+
 Definition check_case (c : case) : bool :=
-  all2 (fun a e => lN_eqb (enc_evs (act_events all_ok a)) e) (k_acts c) (k_expect c)
+  all2 (fun a e => lN_eqb (enc_evs (act_events (aok_of (k_faults c)) a)) e) (k_acts c) (k_expect c)
   && forallb (fun r : N * N => race_accepted GUARD_KIND (fst r) =? snd r) (k_races c).
 
 Definition model_obs (c : case) : list N :=
-  flat_map (fun a => enc_evs (act_events all_ok a)) (k_acts c).
+  flat_map (fun a => enc_evs (act_events (aok_of (k_faults c)) a)) (k_acts c).
